@@ -137,7 +137,7 @@ pub fn cmp_fixed(o: &mut Outcome, el: &NetflowPacket, r: &RefFixed) -> Result<()
     }
     for (i, (n, name)) in protos.iter().enumerate() {
         let got = norm_name(name);
-        if !iana_names(*n).contains(&got) {
+        if !crate::refdec::proto_name_ok(*n, &got) {
             // finding D4: the number->name table has four wrong entries
             let sig = format!("proto-name:{}:{}", n, got);
             let listed = matches!(
